@@ -653,3 +653,45 @@ package ro
 //@   on next@source(ctx, value) : emits Next(ctx, value)
 //@   on error@source(ctx, err) : emits subscriptions.Unsubscribe(), Error(ctx, err)
 //@   on complete@source(ctx) : emits
+
+// ---------------------------------------------------------------------------
+// time-driven operators (C16): what does not depend on the clock. The real-time lower bounds follow from these
+// facts under the assumed contract of the time package (a timer does not fire before its duration).
+// ---------------------------------------------------------------------------
+
+//@ operator Delay
+//@   props C16 C08 C09
+//@   note every notification is queued with its context, and one timer of the configured duration is armed for it; nothing is delivered by the upstream callback itself
+//@   track call.AfterFunc
+//@   on next(ctx, value) : emits call.AfterFunc(duration, _) ; post len(queue') == len(queue) + 1 && queue'[len(queue)].A == ctx && queue'[len(queue)].B.Kind == 0 && queue'[len(queue)].B.Value == value
+//@   on error(ctx, err) : emits call.AfterFunc(duration, _) ; post len(queue') == len(queue) + 1 && queue'[len(queue)].A == ctx && queue'[len(queue)].B.Kind == 1 && queue'[len(queue)].B.Err == err
+//@   on complete(ctx) : emits call.AfterFunc(duration, _) ; post len(queue') == len(queue) + 1 && queue'[len(queue)].A == ctx && queue'[len(queue)].B.Kind == 2
+
+//@ func Delay$1$1$1
+//@   note consume: the timer callback releases the head of the queue (FIFO), or nothing when the teardown emptied it
+//@   props C16 C09
+//@   maypanic
+//@   inline processNotificationWithObserverAndContext processNotificationWithContext
+//@   track destination.*
+//@   ensures [empty-queue-is-a-no-op|C16] len(old(queue)) == 0 ==> trace()
+//@   ensures [delivers-the-head-with-its-context|C16,C09] len(old(queue)) > 0 && old(queue)[0].B.Kind == 0 ==> trace(destination.NextWithContext(old(queue)[0].A, old(queue)[0].B.Value))
+//@   ensures [delivers-the-head-error|C16] len(old(queue)) > 0 && old(queue)[0].B.Kind == 1 ==> trace(destination.ErrorWithContext(old(queue)[0].A, old(queue)[0].B.Err))
+//@   ensures [delivers-the-head-completion|C16] len(old(queue)) > 0 && old(queue)[0].B.Kind == 2 ==> trace(destination.CompleteWithContext(old(queue)[0].A))
+//@   ensures [pops-exactly-the-head|C16] len(old(queue)) > 0 ==> len(queue) == len(old(queue)) - 1
+
+//@ operator Timeout
+//@   props C16 C09
+//@   track call.Timer.Stop call.Timer.Reset
+//@   on next(ctx, value) : emits call.Timer.Stop(_), Next(ctx, value), call.Timer.Reset(_, duration)
+//@   on error(ctx, err) : emits call.Timer.Stop(_), Error(ctx, err)
+//@   on complete(ctx) : emits call.Timer.Stop(_), Complete(ctx)
+
+//@ func Interval$1$1
+//@   note the ticking goroutine of Interval: value k is emitted on the k-th tick received, nothing is emitted without a tick
+//@   props C16 C09
+//@   track destination.* loop.* chselect
+//@   ensures [completes-when-told-to-stop|C16] trace(loop.L0, chselect, destination.CompleteWithContext(ctx))
+
+//@ loop Interval$1$1#0
+//@   iteration ensures count(chselect) == 1 && count(destination.NextWithContext) <= 1 && before(chselect, destination.NextWithContext)
+//@   iteration ensures called(destination.NextWithContext) ==> arg(destination.NextWithContext, 0) == ctx && arg(destination.NextWithContext, 1) == value
